@@ -147,14 +147,18 @@ fn build_history(st: &State, t: &mut Toks) -> PResult<std::result::Result<(Diame
         v
     };
     let look = |m: &DiameterMessage| {
-        for c in &probes {
-            let _ = m.get_avp(*c);
-        }
         let codes: Vec<u32> = m.get_avps().iter().map(|a| a.get_code()).collect();
         for c in codes {
             let _ = m.get_avp(c);
         }
+        for c in &probes {
+            let _ = m.get_avp(*c);
+        }
         let _ = m.get_length();
+        // the last lookup before the next construction step is the one the case will ask first at its end
+        if let Some(c) = probes.get(4) {
+            let _ = m.get_avp(*c);
+        }
     };
     look(&m);
     for _ in 0..nops {
@@ -446,6 +450,11 @@ fn run_faultwrite(st: &State, t: &mut Toks) -> PResult<String> {
                     behav.push_back(Some(usize::from_str_radix(s, 16).map_err(|e| e.to_string())?));
                 }
             }
+            // the same message encoded into memory twice before the run against the faulting writer ...
+            let mut p1 = Vec::new();
+            let q1 = m.encode_to(&mut p1).is_ok();
+            let mut p2 = Vec::new();
+            let q2 = m.encode_to(&mut p2).is_ok();
             let mut w = FaultWrite { budget, behav, accepted: Vec::new() };
             let r = m.encode_to(&mut w);
             let mut out = String::from(if r.is_ok() { "W ok " } else { "W err " });
@@ -458,11 +467,10 @@ fn run_faultwrite(st: &State, t: &mut Toks) -> PResult<String> {
             }
             let _ = write!(out, " LEN {:x}", m.get_length());
             // after a faulted (or complete) run the same message, encoded into memory twice, must give one answer
+            // ... and once more after it: one answer every time (nothing remembered from a failed or faulted attempt)
             let mut e1 = Vec::new();
             let r1 = m.encode_to(&mut e1).is_ok();
-            let mut e2 = Vec::new();
-            let r2 = m.encode_to(&mut e2).is_ok();
-            if r1 != r2 || (r1 && e1 != e2) || (r.is_ok() && (!r1 || e1 != w.accepted)) {
+            if q1 != q2 || (q1 && p1 != p2) || r1 != q1 || (r1 && e1 != p1) || (r.is_ok() && (!q1 || p1 != w.accepted)) {
                 out.push_str(" ENC2DIFF after-fault");
             }
             Ok(out)
@@ -709,6 +717,57 @@ pub fn handle(st: &mut State, line: &str) -> String {
                     ops.push(parse_dop(&mut t)?);
                 }
                 st.dicts.insert(id, Arc::new(build_dict(ops)));
+                Ok("OK".into())
+            }
+            // DSWAP <id> <k> <ops>: as D, but the new dictionary is fully built first, then the old one is dropped and the
+            // new one moved behind its Arc at once - the allocator hands the block just freed (same size) straight back,
+            // so the new dictionary lives at the address of the old one
+            "DSWAP" => {
+                let id = t.next()?.to_string();
+                let k = t.usize_dec()?;
+                let mut ops = Vec::new();
+                for _ in 0..k {
+                    ops.push(parse_dop(&mut t)?);
+                }
+                let d = build_dict(ops);
+                let old = st.dicts.remove(&id);
+                let before = old.as_ref().map(|a| Arc::as_ptr(a) as usize);
+                // empty the allocator's free lists for blocks of the size of an Arc<Dictionary> allocation, so that the
+                // block freed next is the one handed out next
+                let layout = std::alloc::Layout::from_size_align(std::mem::size_of::<Dictionary>() + 2 * std::mem::size_of::<usize>(), 8).unwrap();
+                let mut held = Vec::new();
+                for _ in 0..256 {
+                    let p = unsafe { std::alloc::alloc(layout) };
+                    if !p.is_null() {
+                        held.push(p);
+                    }
+                }
+                drop(old);
+                let fresh = Arc::new(d);
+                for p in held {
+                    unsafe { std::alloc::dealloc(p, layout) };
+                }
+                let same = before == Some(Arc::as_ptr(&fresh) as usize);
+                st.dicts.insert(id, fresh);
+                Ok(if same { "OK same-address".into() } else { "OK".into() })
+            }
+            // DADD <id> <op>: one more load / add applied to the EXISTING dictionary object (in place)
+            "DADD" => {
+                let id = t.next()?.to_string();
+                let op = parse_dop(&mut t)?;
+                let arc = st.dicts.get_mut(&id).ok_or_else(|| "unknown dict".to_string())?;
+                let d = Arc::make_mut(arc);
+                match op {
+                    DOp::Load(x) => d.load_xml(&x),
+                    DOp::Add(a) => d.add_avp(a),
+                }
+                Ok("OK".into())
+            }
+            // DFORK <src> <dst>: dst becomes a clone of src; both stay alive and are used independently afterwards
+            "DFORK" => {
+                let src = st.dicts.get(t.next()?).ok_or_else(|| "unknown dict".to_string())?.clone();
+                let dst = t.next()?.to_string();
+                st.dicts.insert(dst, Arc::new((*src).clone()));
                 Ok("OK".into())
             }
             // forget a dictionary: its Arc is dropped here (the allocator will typically hand the same address to the next one)
